@@ -9,7 +9,7 @@
      BOUNDED   vm_compute over a finite domain, bound in the statement; not the claim *)
 From Coq Require Import List ZArith NArith Bool.
 From SopVerif Require Import OMap OMapProofs OMapProofs2 Btree BtreeSim BtreeProofs BtreeProofs2
-  BtreeBounded1 BtreeBounded2 BtreeBounded3 Corr.C17.
+  BtreeBounded1 BtreeBounded2 BtreeBounded3 BtreeBounded4 BtreeWF BtreeLemmas BtreeCount Corr.C17.
 Import ListNotations.
 Local Open Scope Z_scope.
 
@@ -89,6 +89,24 @@ Theorem C17_sim_ordered : forall cfg ops, sim_run cfg ops = true ->
   NoDup (map iid (b_inorder b)) /\ (cunique cfg = true -> NoDup (map ikey (b_inorder b))).
 Proof. exact sim_run_ordered. Qed.
 Print Assumptions C17_sim_ordered.
+
+(* ---------------------------------------------------------------- FULL: facts about the node-level model itself *)
+
+(* Count() bookkeeping for EVERY state, configuration (load balancing included) and call:
+   +1 exactly on a successful add, -1 exactly on a successful removal, unchanged otherwise *)
+Theorem C17_count_bookkeeping : forall cfg b o,
+  count_delta o (snd (bstep cfg b o)) (bcount b) (bcount (fst (bstep cfg b o))).
+Proof. exact bstep_count. Qed.
+Print Assumptions C17_count_bookkeeping.
+
+(* the transcribed binary search (sort.Search) of add/find is the lower bound, of
+   findInDescendingOrder the upper bound, on every node whose occupied slots are sorted *)
+Theorem C17_node_search : forall n key, 0 <= ncount n <= Z.of_nat (length (nslots n)) ->
+  sorted (occupied n) ->
+  sort_search (ncount n) (fun i => key <=? ikey (slot n i)) = Z.of_nat (lb (occupied n) key) /\
+  sort_search (ncount n) (fun i => key <? ikey (slot n i)) = Z.of_nat (ub (occupied n) key).
+Proof. intros n key H1 H2. split; [apply node_search_is_lb|apply node_search_is_ub]; auto. Qed.
+Print Assumptions C17_node_search.
 
 (* ---------------------------------------------------------------- the refinement statement *)
 
@@ -170,6 +188,17 @@ Theorem C17_bounded_L4_7 : forall ops, (length ops <= 7)%nat -> Forall (fun o =>
   sim_run (mkCfg 4 false false) ops = true.
 Proof. exact bounded_L4_dup. Qed.
 Print Assumptions C17_bounded_L4_7.
+
+(* BOUNDED (not the claim): the structural invariant wfb (BtreeWF.v) in every reachable state *)
+Theorem C17_bounded_wf_L2_7 : forall ops, (length ops <= 7)%nat -> Forall (fun o => In o alpha_mut) ops ->
+  run_wf (mkCfg 2 false false) empty_bstate ops = true.
+Proof. exact bounded_wf_L2. Qed.
+Print Assumptions C17_bounded_wf_L2_7.
+
+Theorem C17_bounded_wf_L4_7 : forall ops, (length ops <= 7)%nat -> Forall (fun o => In o alpha_L4) ops ->
+  run_wf (mkCfg 4 false false) empty_bstate ops = true.
+Proof. exact bounded_wf_L4. Qed.
+Print Assumptions C17_bounded_wf_L4_7.
 
 (* non-vacuity: a run with a root split, a removal through the successor swap and both scans is
    accepted by the specification and simulated by the node-level model *)
